@@ -68,6 +68,11 @@ POINT = {
     "pd3_3": (_Z(3, "hex", "thirds", "full"), [3]),
     "pd4_22": (_Z(4, "hex", "generic", "full"), [2, 2]),
     "pd4_121": (_Z(4, "tric", "shared", "full"), [1, 2, 1]),
+    # NOT degenerate: two levels 1.6e-4 apart (documented threshold of random_gauge: 1e-4) at +15 / -20 eV -- a relative
+    # tolerance would merge them.  No unitary may be drawn, so both runs do the same arithmetic (a true multiplet next
+    # to such a pair would make the 1/dE^2 terms amplify rounding to 1e-6: not used)
+    "near3_hi": (dict(_Z(3, "tric", "generic", "full"), levels=[15.0, 15.00016, 16.3]), [1, 1, 1]),
+    "near3_lo": (dict(_Z(3, "hex", "generic", "full"), levels=[-20.0, -18.0, -17.99984]), [1, 1, 1]),
 }
 POINT_THOROUGH = {
     "pd4_31": (_Z(4, "mono", "generic", "full"), [3, 1]),
@@ -163,6 +168,8 @@ def _spec(case):
         spec = dict(spec)
         k0 = list(zoo.K_ALPHABET[case["k"]]) if case["kind"] == "gk" else [0.0, 0.0, 0.0]
         spec["pointdeg"] = {"k": k0, "mult": list(mult)}
+        if "levels" in spec:
+            spec["pointdeg"]["levels"] = spec.pop("levels")
         return spec, [m for m in mult if m > 1]
     spec, dims, _ = allk[name]
     return dict(spec), list(dims)
@@ -182,6 +189,8 @@ def _outclass(name):
 def _site(name):
     """finding key component: the formula / calculator an output belongs to"""
     n = name.split("/")[-1]
+    if "@band" in n:
+        return n.split("@")[0] + ":select_bands"
     if "qiao" in n:
         return "SpinVelocity_qiao"
     return n
@@ -223,6 +232,18 @@ def _run_calcs(system, outs):
     tabs = _select(kres.tabulators(system, "full"), outs)
     if outs == "main":
         tabs.pop("Energy", None)
+        # band-resolved variants (select_bands): one band out of a multiplet must still give a gauge-independent number
+        from wannierberri.calculators import static as st
+        nb = system.num_wann
+        for b in sorted({0, 1, nb - 1} & set(range(nb))):
+            # (selection of bands is implemented for the Fermi-surface calculators only)
+            for cname in ("DOS", "Ohmic_FermiSurf", "BerryDipole_FermiSurf", "GME_spin_FermiSurf", "GME_orb_FermiSurf", "DOS_tetra"):
+                if cname in ints:
+                    proto = ints[cname]
+                    kw = dict(Efermi=proto.Efermi, select_bands=np.array([b]), tetra=proto.tetra)
+                    if getattr(proto, "kwargs_formula", None):
+                        kw["kwargs_formula"] = dict(proto.kwargs_formula)
+                    ints[f"{cname}@band{b}"] = getattr(st, cname.replace("_tetra", ""))(**kw)
     calcs = dict(ints)
     if tabs:
         calcs["tab"] = tabulate.TabulatorAll(tabs, mode="grid")
